@@ -641,6 +641,8 @@ def ITE(c, a, b):
         return wrapint(z3.If(c, toint(a), toint(b)))
     if isinstance(a, (bool, SymBool)) and isinstance(b, (bool, SymBool)):
         return wrapbool(z3.If(c, tobool(a), tobool(b)))
+    if isinstance(a, (float, SymFloat)) or isinstance(b, (float, SymFloat)):
+        return wrapfloat(z3.If(c, tofloat(a), tofloat(b)))
     raise Unsupported('ITE over %r/%r' % (type(a), type(b)))
 
 
@@ -1052,20 +1054,16 @@ def wrapfloat(t):
     t = z3.simplify(t)
     if isinstance(t, z3.FPNumRef):
         try:
+            import struct
+            bv = z3.simplify(z3.fpToIEEEBV(t))
             if t.isNaN():
                 return float('nan')
-            if t.isInf():
-                return float('-inf') if t.isNegative() else float('inf')
-            import fractions
-            if t.isZero():
-                return -0.0 if t.isNegative() else 0.0
-            sig = fractions.Fraction(t.significand_as_long(),
-                                     2 ** (t.sbits() - 1))
-            v = sig * (fractions.Fraction(2) ** t.exponent_as_long(False))
-            f = float(v)
-            return -f if t.isNegative() else f
+            if z3.is_bv_value(bv):
+                return struct.unpack('<d', struct.pack(
+                    '<Q', bv.as_long()))[0]
         except Exception:
-            return SymFloat(t)
+            pass
+        return SymFloat(t)
     return SymFloat(t)
 
 
